@@ -38,8 +38,9 @@ def shards(tier, seed):
 
 def gen(rng, spec):
     r = rng.random()
-    case = search.gen_case(rng, nbest=rng.choice((1, 2, 2, 3)), max_n=4, sparse=rng.random() < 0.35, mixed_heads=r < 0.3,
-                           head_left=None if r < 0.3 else r < 0.65)
+    big = rng.random() < 0.1         # a large category table with pairs that have 17-24 results
+    case = search.gen_case(rng, nbest=rng.choice((1, 2, 2, 3)) if not big else 1, max_n=4, sparse=big or rng.random() < 0.35,
+                           mixed_heads=r < 0.3, head_left=None if r < 0.3 else r < 0.65, many_cats=big)
     case['config']['max_step'] = min(case['config']['max_step'], 30000)
     return case
 
